@@ -27,7 +27,7 @@ func c20Thread(seed uint64, nops int) string {
 	var reuse *simdjson.ParsedJson
 	ser := simdjson.NewSerializer()
 	for k := 0; k < nops; k++ {
-		switch r.Intn(7) {
+		switch r.Intn(8) {
 		case 0, 1: // Parse small / large
 			var doc []byte
 			if r.Chance(1, 3) {
@@ -165,6 +165,19 @@ func c20Thread(seed uint64, nops int) string {
 						io.WriteString(h, "E"+d2)
 					}
 				}
+			}
+		case 6: // MarshalJSON of strings full of control characters, a different one per goroutine
+			ch := byte(1 + seed%6) // 0x01..0x06: none of them has a short escape
+			raw := bytes.Repeat([]byte{'x', ch}, 40+r.Intn(40))
+			doc := []byte(fmt.Sprintf(`{"k\u00%02x":["%s","plain"]}`, ch, strings.ReplaceAll(string(raw), string([]byte{ch}), fmt.Sprintf("\\u00%02x", ch))))
+			out := implParse(doc, false, true, nil)
+			fmt.Fprintf(h, "M%v", out.Err)
+			if !out.Err {
+				m, _, _ := safeMarshal(out.PJ.Iter())
+				h.Write(m)
+				runtime.Gosched()
+				m2, _, _ := safeMarshal(out.PJ.Iter())
+				h.Write(m2)
 			}
 		default: // ParseNDStream
 			var sb strings.Builder
